@@ -14,11 +14,11 @@ FLAGS = ["-Z", "stubbing"]
 
 HARNESSES = {
     "C08": {
-        "quick": ["c08_plain_n3", "c08_tracked_n3", "c08_heap_n3", "c08_zst_n3", "c08_big_n2",
+        "quick": ["c08_plain_n3", "c08_tracked_n3", "c08_heap_n3", "c08_zst_n3", "c08_zst_a8_n3", "c08_big_n2",
                   "c08_over16_n3", "c08_wrapper_n2", "c08_plain_to_tracked_n3", "c08_tracked_to_plain_n3", "c08_twin_n3"],
         "thorough": ["c08_plain_n5", "c08_tracked_n5", "c08_heap_n5", "c08_zst_n5", "c08_big_n4",
                      "c08_over16_n5", "c08_wrapper_n2", "c08_twin_n3",
-                     "c08_plain_n3", "c08_tracked_n3", "c08_heap_n3", "c08_zst_n3", "c08_over16_n3",
+                     "c08_plain_n3", "c08_tracked_n3", "c08_heap_n3", "c08_zst_n3", "c08_zst_a8_n3", "c08_over16_n3",
                      "c08_plain_to_tracked_n3", "c08_tracked_to_plain_n3", "c08_plain_n7", "c08_tracked_n7", "c08_zst_n7"],
     },
     "C09": {
@@ -30,12 +30,12 @@ HARNESSES = {
     },
     "C10": {
         "quick": ["c10_size_ne_align_eq_n3", "c10_size_eq_align_ne_n3", "c10_size_ne_align_ne_n3",
-                  "c10_zst_vs_byte_n3", "c10_zst_vs_tracked_n3", "c10_tracked_vs_zst_n3",
+                  "c10_zst_vs_byte_n3", "c10_zst_vs_tracked_n3", "c10_tracked_vs_zst_n3", "c10_zst_align_1_to_8_n3", "c10_zst_align_8_to_1_n3",
                   "c10_bytes4_vs_u32_n3", "c10_heap_vs_over16_n3", "c10_rev_align_4_to_1_n3",
                   "c10_rev_align_16_to_8_n3", "c10_rev_size_6_to_4_n3"],
         "thorough": ["c10_size_ne_align_eq_n5", "c10_size_eq_align_ne_n5", "c10_zst_vs_tracked_n5",
                      "c10_size_ne_align_eq_n3", "c10_size_eq_align_ne_n3", "c10_size_ne_align_ne_n3",
-                     "c10_zst_vs_byte_n3", "c10_zst_vs_tracked_n3", "c10_tracked_vs_zst_n3",
+                     "c10_zst_vs_byte_n3", "c10_zst_vs_tracked_n3", "c10_tracked_vs_zst_n3", "c10_zst_align_1_to_8_n3", "c10_zst_align_8_to_1_n3",
                      "c10_bytes4_vs_u32_n3", "c10_heap_vs_over16_n3", "c10_rev_align_4_to_1_n3",
                      "c10_rev_align_16_to_8_n3", "c10_rev_size_6_to_4_n3"],
     },
